@@ -118,10 +118,10 @@ Section CopyEqual.
     assert (Hk : k = norm (sname (hs W s))).
     { destruct Hwf as [_ Hk]. rewrite Forall_forall in Hk. apply (Hk (k, s) Hin). }
     unfold sym_sup in Hss. unfold sym_objs in Hso.
-    apply Forall_cons_iff in Hss as [_ Hss]. rewrite !Forall_app in Hss. destruct Hss as [Hdt [Hinit Hintf]].
+    apply Forall_cons_iff in Hss as [_ Hss]. rewrite !Forall_app in Hss. destruct Hss as [Hdt [Hinit [Hintf Hmem]]].
     apply Forall_cons_iff in Hso as [Hdo Hio].
     unfold wdecl. cbn [fst snd]. rewrite (Hnew s Hs).
-    unfold copied_sym. cbn [sname styped sdt sinit sintf]. rewrite <- Hk.
+    unfold copied_sym. cbn [sname styped sdt sinit sintf smem]. rewrite <- Hk.
     rewrite (wobj_old _ Hdo Hdt).
     assert (Ei : winit W' (option_map (shift_ids off) (sinit (hs W s))) = winit W (sinit (hs W s))).
     { destruct (sinit (hs W s)) as [e|]; simpl; [|reflexivity]. f_equal.
@@ -139,10 +139,17 @@ Section CopyEqual.
     { destruct (sintf (hs W s)) as [o|c] eqn:Eintf.
       - simpl in Hintf, Hio. apply Forall_cons_iff in Hio as [Hoo _].
         destruct (styped (hs W s)); simpl; f_equal; [apply wobj_old | apply wobj_new]; assumption.
-      - assert (Hc : In c (syms t)) by (apply (Himp s c Hs Eintf)).
+      - assert (Hc : In c (syms t)) by (apply (proj1 Himp s c Hs Eintf)).
         rewrite (lookup_deep_copy (hs W) soff t c Hwf Hc). simpl.
         rewrite (Hnew c Hc). reflexivity. }
-    rewrite Ef. reflexivity.
+    rewrite Ef.
+    assert (Em : wmem W' (map (fun m => match lookup (norm (sname (hs W m))) (deep_copy_table (hs W) soff t) with
+                                        | Some m' => m' | None => m end) (smem (hs W s)))
+                 = wmem W (smem (hs W s))).
+    { unfold wmem. f_equal. rewrite map_map. apply map_Forall_ext. apply Forall_forall. intros m Hm.
+      assert (Hc : In m (syms t)) by (apply (proj2 Himp s m Hs Hm)).
+      rewrite (lookup_deep_copy (hs W) soff t m Hwf Hc). rewrite (Hnew m Hc). reflexivity. }
+    rewrite Em. reflexivity.
   Qed.
 
   Lemma wtab_copy : forall t,
